@@ -1,5 +1,6 @@
 SPECIFICATION TraceSpec
 CONSTANTS
+  MaxParked = 0
   LockIds = {"unused"}
 INVARIANTS
   VerdictOK
